@@ -626,17 +626,74 @@ func checkBorderContiguity(p *Prog, r *Roles, res *Result, sp *ssa.Package) {
 		if f.Pkg != sp || f.Synthetic != "" {
 			continue
 		}
+		// a border store goes into an element of a partition slice: in place (ps[i].End = ..), or into a local copy
+		// of the element that is appended to the output slice afterwards (for i, p := range ps { p.End = ..;
+		// ret = append(ret, p) }); elemOf names the slice and the index of the element either way
+		elemOf := func(base ssa.Value) (string, ssa.Value, bool) {
+			switch x := base.(type) {
+			case *ssa.IndexAddr:
+				return pureKeyCell(x.X), x.Index, true
+			case *ssa.Alloc:
+				slice, idx := "", ssa.Value(nil)
+				for _, ref := range *x.Referrers() {
+					switch y := ref.(type) {
+					case *ssa.Store:
+						// the copy is filled from in[i]
+						if y.Addr == ssa.Value(x) {
+							if ld, ok := resolve(y.Val).(*ssa.UnOp); ok && ld.Op == token.MUL {
+								if ia, ok := ld.X.(*ssa.IndexAddr); ok {
+									idx = ia.Index
+								}
+							}
+						}
+					case *ssa.UnOp:
+						// .. and appended to out: append(out, []T{*x}...)
+						for _, r2 := range *y.Referrers() {
+							st, ok := r2.(*ssa.Store)
+							if !ok || st.Val != ssa.Value(y) {
+								continue
+							}
+							ia, ok := st.Addr.(*ssa.IndexAddr)
+							if !ok {
+								continue
+							}
+							arr, ok := ia.X.(*ssa.Alloc)
+							if !ok {
+								continue
+							}
+							for _, r3 := range *arr.Referrers() {
+								sl, ok := r3.(*ssa.Slice)
+								if !ok {
+									continue
+								}
+								for _, r4 := range *sl.Referrers() {
+									if c, ok := r4.(*ssa.Call); ok {
+										if bi, ok := c.Common().Value.(*ssa.Builtin); ok && bi.Name() == "append" && len(c.Common().Args) == 2 && c.Common().Args[1] == ssa.Value(sl) {
+											slice = pureKeyCell(c.Common().Args[0])
+										}
+									}
+								}
+							}
+						}
+					}
+				}
+				if slice != "" && idx != nil {
+					return slice, idx, true
+				}
+			}
+			return "", nil, false
+		}
 		var startStores, endStores []*ssa.Store
 		for _, s := range p.fields().stores[startF] {
 			if s.Parent() == f {
-				if _, ok := s.Addr.(*ssa.FieldAddr).X.(*ssa.IndexAddr); ok {
+				if _, _, ok := elemOf(s.Addr.(*ssa.FieldAddr).X); ok {
 					startStores = append(startStores, s)
 				}
 			}
 		}
 		for _, s := range p.fields().stores[endF] {
 			if s.Parent() == f {
-				if _, ok := s.Addr.(*ssa.FieldAddr).X.(*ssa.IndexAddr); ok {
+				if _, _, ok := elemOf(s.Addr.(*ssa.FieldAddr).X); ok {
 					endStores = append(endStores, s)
 				}
 			}
@@ -656,26 +713,25 @@ func checkBorderContiguity(p *Prog, r *Roles, res *Result, sp *ssa.Package) {
 				fmt.Sprintf("start borders are copied from the neighbour's end border, but no end border of the slice is ever rewritten (%d store(s) go to a copy of the element): a border inside one key's versions stays where the engine put it", nEnd))
 			continue
 		}
-		sliceKey := func(ia *ssa.IndexAddr) string { return pureKeyCell(ia.X) }
 		for i, ss := range startStores {
 			construct := fmt.Sprintf("%s: start border #%d is the adjusted end border of the predecessor", funcName(f), i+1)
-			dst := ss.Addr.(*ssa.FieldAddr).X.(*ssa.IndexAddr)
+			dstSlice, dstIdx, _ := elemOf(ss.Addr.(*ssa.FieldAddr).X)
 			ld, ok := resolve(ss.Val).(*ssa.UnOp)
-			var src *ssa.IndexAddr
+			srcSlice, srcIdx, srcOK := "", ssa.Value(nil), false
 			if ok {
 				if fa, ok := ld.X.(*ssa.FieldAddr); ok && fieldOf(fa) == endF {
-					src, _ = fa.X.(*ssa.IndexAddr)
+					srcSlice, srcIdx, srcOK = elemOf(fa.X)
 				}
 			}
-			if src == nil {
+			if !srcOK {
 				res.bad("C13-R5", construct, p.pos(ss.Pos()), "a partition's start border is not copied from a partition's end border: the partitions are no longer contiguous (records between the borders are scanned by no worker, or twice)")
 				continue
 			}
 			problems := []string{}
 			// same slice as the one receiving adjusted ends
 			for _, es := range endStores {
-				eia := es.Addr.(*ssa.FieldAddr).X.(*ssa.IndexAddr)
-				if sliceKey(eia) != sliceKey(src) {
+				eSlice, eIdx, _ := elemOf(es.Addr.(*ssa.FieldAddr).X)
+				if eSlice != srcSlice {
 					problems = append(problems, "the propagated end border is read from a different slice than the one whose end borders are adjusted (stale, unadjusted border)")
 				}
 				// the end border that was propagated must not be adjusted afterwards in the same iteration
@@ -683,21 +739,21 @@ func checkBorderContiguity(p *Prog, r *Roles, res *Result, sp *ssa.Package) {
 					// the adjustment runs in a later pass over the slice: every propagated start is the unadjusted border
 					problems = append(problems, "end borders are adjusted in a pass that runs after they have been copied into the next partition's start: the next partition starts at the unadjusted border and the records in between are scanned by nobody")
 				}
-				if pureKey(eia.Index) == pureKey(src.Index) && reaches(ld, es) && !crossesBackEdgeOnly(ld, es) {
+				if pureKey(eIdx) == pureKey(srcIdx) && reaches(ld, es) && !crossesBackEdgeOnly(ld, es) {
 					problems = append(problems, "an end border is adjusted after it has been copied into the next partition's start: the next partition starts at the unadjusted border and the records in between are scanned by nobody")
 				}
 			}
-			if sliceKey(dst) != sliceKey(src) {
+			if dstSlice != srcSlice {
 				problems = append(problems, "start is written into a different slice than the end is read from")
 			}
 			// predecessor relation: src index = dst index - 1, or dst index = src index + 1
 			pred := false
-			if bo, ok := src.Index.(*ssa.BinOp); ok && bo.Op == token.SUB && pureKey(bo.X) == pureKey(dst.Index) {
+			if bo, ok := srcIdx.(*ssa.BinOp); ok && bo.Op == token.SUB && pureKey(bo.X) == pureKey(dstIdx) {
 				if k, ok := constInt(bo.Y); ok && k == 1 {
 					pred = true
 				}
 			}
-			if bo, ok := dst.Index.(*ssa.BinOp); ok && bo.Op == token.ADD && pureKey(bo.X) == pureKey(src.Index) {
+			if bo, ok := dstIdx.(*ssa.BinOp); ok && bo.Op == token.ADD && pureKey(bo.X) == pureKey(srcIdx) {
 				if k, ok := constInt(bo.Y); ok && k == 1 {
 					pred = true
 				}
